@@ -129,6 +129,8 @@ C["C17"]={"jobs":[job("history-k3",".","VH_ClientHistory",["C17/"],{"k":3},QO,bo
 c18=[]
 for n in (0,1,3,4,5,17):
     c18.append(job(f"send-len{n}",".","VH_NetlinkSend",["C18/"],{"paylen":n,"sends":1},Q,no_native=True,bounds=f"one Send: symbolic type/flags/pid (0 and non-0)/client pid/counter, payload of {n} symbolic bytes"))
+for n in (8953,8954,8955,8969,8970):
+    c18.append(job(f"send-long{n}",".","VH_NetlinkSend",["C18/"],{"paylen":n,"sends":1,"symtail":2},Q,no_native=True,alloc_cap=65536,loop_cap=40000,bounds=f"one Send with a payload of {n} bytes (up to the 8970-byte audit maximum; concrete pattern, last 2 bytes symbolic)"))
 c18.append(job("send-len8970",".","VH_NetlinkSend",["C18/"],{"paylen":8970,"sends":1},T,no_native=True,bounds="one Send with a payload of 8970 symbolic bytes"))
 c18.append(job("send-x3",".","VH_NetlinkSend",["C18/"],{"paylen":2,"sends":3},Q,no_native=True,bounds="three consecutive Sends: returned sequence numbers increase by one (mod 2^32), symbolic start"))
 c18.append(job("recv-0-24",".","VH_NetlinkReceive",["C18/"],{"maxlen":24,"bufsz":64},Q,no_native=True,bounds="Receive: datagram length 0..24 symbolic bytes x sender in {kernel, netlink pid!=0, unix, nil, recv error} x writer {none, copy, failing} x {raw parser, AuditClient.Receive}"))
